@@ -161,7 +161,7 @@ func evalSeq(q sequence, o *seqOutput) evalResult {
 					}
 				}
 				if obs != exp {
-					res.dis = append(res.dis, mismatch(q, j, c, 0, "ctor", own, b, s.Val, exp, obs, pred, mk))
+					res.dis = append(res.dis, mismatch(q, j, c, 0, "ctor", -1, own, b, s.Val, exp, obs, pred, mk))
 				}
 			}
 			insts = append(insts, in)
@@ -189,10 +189,47 @@ func evalSeq(q sequence, o *seqOutput) evalResult {
 				}
 			}
 			if obs != exp {
-				res.dis = append(res.dis, mismatch(q, j, c, p, via, own, b, s.Val, exp, obs, pred, mk))
+				res.dis = append(res.dis, mismatch(q, j, c, p, via, -1, own, b, s.Val, exp, obs, pred, mk))
 			}
 			if d := valueDesc(int(s.Val), tok); d != "" && via != "param" {
 				cell := "class=" + c.name + "/prop=" + c.props[p] + "/own=" + typeNames[own] + "/value=" + valNames[s.Val] + "/via=" + via
+				if obs && mk.cur != d {
+					res.dis = append(res.dis, disagreement{
+						key:  "store-mismatch/accepted-not-stored/" + cell,
+						what: func() string { return fmt.Sprintf("step %d of [%s]: the write did not throw, but the property then reads %s instead of %s", j, q, mk.cur, d) },
+						step: j})
+				}
+				if !obs && mk.cur == d {
+					res.dis = append(res.dis, disagreement{
+						key:  "store-mismatch/rejected-but-stored/" + cell,
+						what: func() string { return fmt.Sprintf("step %d of [%s]: the write threw (%s), but the property then holds the written value %s", j, q, mk.msg, d) },
+						step: j})
+				}
+			}
+		case 'P':
+			t, a := insts[s.Inst], insts[s.Actor]
+			if !t.created || !a.created || (mk.status != "accepted" && mk.status != "rejected") {
+				continue
+			}
+			c := classes[t.class]
+			p, via, _ := c.peerMember(int(s.Member))
+			// the TARGET's own argument decides, whichever instantiation's method performs the write
+			own := t.args[p]
+			exp := accepts(own, s.Val)
+			b := bind(t.class, p, own)
+			pred := accepts(b, s.Val)
+			obs := mk.status == "accepted"
+			res.writes++
+			for k, other := range insts {
+				if k != int(s.Inst) && other.created && other.class == t.class && other.args != t.args {
+					res.nontrivial = true
+				}
+			}
+			if obs != exp {
+				res.dis = append(res.dis, mismatch(q, j, c, p, via, a.args[p], own, b, s.Val, exp, obs, pred, mk))
+			}
+			if d := valueDesc(int(s.Val), tok); d != "" {
+				cell := "class=" + c.name + "/prop=" + c.props[p] + "/own=" + typeNames[own] + "/value=" + valNames[s.Val] + "/via=" + via + "/actor=" + typeNames[a.args[p]]
 				if obs && mk.cur != d {
 					res.dis = append(res.dis, disagreement{
 						key:  "store-mismatch/accepted-not-stored/" + cell,
@@ -223,15 +260,19 @@ func word(accepted bool) string {
 	return "rejected"
 }
 
-func mismatch(q sequence, j int, c classSpec, p int, via string, own, b, val int8, exp, obs, pred bool, mk marker) disagreement {
+func mismatch(q sequence, j int, c classSpec, p int, via string, actor int8, own, b, val int8, exp, obs, pred bool, mk marker) disagreement {
 	base := func() string {
 		inst := fmt.Sprintf("%s (parameter %s = %s)", c.name, c.params[p], typeNames[own])
 		target := "written to property " + c.props[p] + " of"
 		if via == "param" {
 			target = "passed to a method parameter declared " + c.params[p] + " of"
 		}
+		how := via
+		if actor >= 0 {
+			how += " from inside a method of an instance with " + c.params[p] + " = " + typeNames[actor]
+		}
 		t := fmt.Sprintf("step %d of [%s]: a %s value %s an instance of %s through %s was %s, expected %s",
-			j, q, valNames[val], target, inst, via, word(obs), word(exp))
+			j, q, valNames[val], target, inst, how, word(obs), word(exp))
 		if mk.msg != "" {
 			t += " (message: " + mk.msg + ")"
 		}
@@ -240,10 +281,15 @@ func mismatch(q sequence, j int, c classSpec, p int, via string, own, b, val int
 	// a rejection worded like the interpreter's parameter-type rejections (calibrated prefix)
 	// comes from the parameter declaration, not from the property store
 	paramMsg := paramRejectPrefix != "" && strings.HasPrefix(mk.msg, paramRejectPrefix)
-	unboundParam := via != "prop" && exp && !obs && (paramMsg || via == "param")
+	isCall := via == "method" || via == "param" || via == "relay" || via == "relayh"
+	unboundParam := isCall && exp && !obs && (paramMsg || via == "param")
+	viaKey := via
+	if actor >= 0 {
+		viaKey += "/actor=" + typeNames[actor]
+	}
 	if b != own && obs == pred && via != "param" && !unboundParam {
 		return disagreement{
-			key: "shared-decl/first-lookup-wins/class=" + c.name + "/prop=" + c.props[p] + "/own=" + typeNames[own] + "/bound=" + typeNames[b] + "/value=" + valNames[val] + "/via=" + via,
+			key: "shared-decl/first-lookup-wins/class=" + c.name + "/prop=" + c.props[p] + "/own=" + typeNames[own] + "/bound=" + typeNames[b] + "/value=" + valNames[val] + "/via=" + viaKey,
 			what: func() string {
 				return base() + fmt.Sprintf("; the declaration of $%s was first looked up through an instance with %s = %s and behaves as %s for every instance",
 					c.props[p], c.params[p], typeNames[b], typeNames[b])
@@ -254,14 +300,14 @@ func mismatch(q sequence, j int, c classSpec, p int, via string, own, b, val int
 		// what an unsubstituted parameter declaration predicts: `T $x` is checked against a
 		// class literally named T, so every non-null argument is rejected at the call
 		return disagreement{
-			key: "unbound-param/class=" + c.name + "/param=" + c.params[p] + "/own=" + typeNames[own] + "/value=" + valNames[val] + "/via=" + via,
+			key: "unbound-param/class=" + c.name + "/param=" + c.params[p] + "/own=" + typeNames[own] + "/value=" + valNames[val] + "/via=" + viaKey,
 			what: func() string {
 				return base() + "; a value of the instance's own argument type is rejected by a member whose parameter is declared with the type parameter"
 			},
 			step: j}
 	}
 	return disagreement{
-		key:  "accept-mismatch/class=" + c.name + "/prop=" + c.props[p] + "/own=" + typeNames[own] + "/value=" + valNames[val] + "/via=" + via + "/observed=" + word(obs),
+		key:  "accept-mismatch/class=" + c.name + "/prop=" + c.props[p] + "/own=" + typeNames[own] + "/value=" + valNames[val] + "/via=" + viaKey + "/observed=" + word(obs),
 		what: base,
 		step: j}
 }
